@@ -432,8 +432,14 @@ def case_interleave(ctx, rseed, count):
         for _ in range(4):
             shared.add_edge(*r.sample(range(1, shared.order() + 1), 2))
         with alloc.watch() as mon:
-            F = K()
+            # now and then two formulas are alive at once and the operations alternate between them
+            Ks = [K] + ([r.choice([CNF, OPB])] if r.random() < 0.35 else [])
+            Fs = [k() for k in Ks]
+            if len(Fs) > 1:
+                ctx.count("histories_on_two_live_formulas")
             for _ in range(r.randint(1, 10)):
+                idx = r.randrange(len(Fs))
+                F, K = Fs[idx], Ks[idx]
                 n = F.number_of_variables()
                 op = r.choice(["clause", "clause", "raise", "variable", "block", "comb", "perm", "words", "bip", "graph",
                                "digraph", "mapping", "binmap", "constraint", "builder", "builder", "labels", "peek",
@@ -444,7 +450,7 @@ def case_interleave(ctx, rseed, count):
                     import pickle
                     st, C = ctx.call(copy.deepcopy, F) if op == "deepcopy" else ctx.call(lambda: pickle.loads(pickle.dumps(F)))
                     if st == "ok":
-                        F = C                      # the history goes on with the copy
+                        F = Fs[idx] = C            # the history goes on with the copy
                         ctx.count("histories_continued_on_a_copy")
                     else:
                         hist[-1] = op + "(unsupported)"
@@ -560,9 +566,14 @@ def case_interleave(ctx, rseed, count):
                     ctx.call(F.new_binary_mapping, r.randint(1, 3), r.randint(1, 6))
         account(ctx, before)
         ctx.count("interleavings")
-        st, labs = ctx.call(lambda: list(F.all_variable_labels()))
-        if st == "ok" and len(labs) != F.number_of_variables():
-            ctx.violation("labels:count", "history %r: %d labels for %d variables" % (hist, len(labs), F.number_of_variables()))
+        for other in Fs[1:]:
+            for kind, msg in alloc.scan(other):
+                ctx.violation("scan:%s" % kind, "history %r on two live formulas, the second one: %s" % (hist, msg))
+        F, K = Fs[0], Ks[0]
+        for G_ in Fs:
+            st, labs = ctx.call(lambda: list(G_.all_variable_labels()))
+            if st == "ok" and len(labs) != G_.number_of_variables():
+                ctx.violation("labels:count", "history %r: %d labels for %d variables" % (hist, len(labs), G_.number_of_variables()))
         report(ctx, "history %r on %s" % (hist, K.__name__), mon, F)
         if K is CNF and F.number_of_variables() <= 40 and len(F) <= 30 and max([len(c) for c in F] or [0]) <= 3:
             # a formula with such a history is a legitimate input of every transformation
